@@ -1,23 +1,26 @@
 /-
   C18 — the transaction pool behaves like a set of pending transactions under any interleaving.
 
-  Model: `LemoModel.Pool` = /repo/chain/txpool/tx_pool.go exactly as coded (`fixed = false`), tied to the
-  real code by `hx c18` (whole internal state compared after every call).  `fixed = true` is the model of
-  the proposed repair of `delTx` (see the end of this file).
+  Model: `LemoModel.Pool` = /repo/chain/txpool/tx_pool.go exactly as coded, tied to the real code by
+  `hx c18` (whole internal state compared after every call).
+    * `fixed = true`  = the code as it is now, i.e. with `delTx` as repaired by /repo commit 85d2f65
+                        ("fix: delTx of a box must clear the slots of its pooled sub-txs"); this is the
+                        model the driver runs.
+    * `fixed = false` = the code BEFORE commit 85d2f65.
 
   All theorems quantify over ALL sequences of calls `ops : List Op` (AddTx / AddTxs / GetTxs / DelTxs /
   IsEmpty with arbitrary arguments: nil txs, duplicates, boxes overlapping with standalone txs and with
   each other, any expiry, any size) starting from `NewTxPool()`.  They are proved through an invariant
   (`PoolLemmas.Inv`) preserved by every call.
 
-  Result on the code as it is:
-    * full:      `no_panic`, `never_expired`
-    * REFUTED:   `no_duplicates_handed_out`, `never_deleted`, `none_lost`, `box_exclusive`
-                 (`*_refuted`, concrete call sequences, all caused by one defect: `delTx(box)` for a box
-                 that is not pooled deletes the index entries of its pooled sub-txs but leaves their slots)
-    * `_partial`: all four hold for every call sequence that satisfies `Guarded` (no `DelTxs` of a box
-                 one of whose sub-tx hashes is indexed at a live slot other than the box's own)
-    * full for the repaired `delTx` (`fixed = true`).
+    * current code (`fixed = true`), full: `no_panic`, `never_expired`, `box_exclusive`,
+      `no_duplicates_handed_out`, `never_deleted`, `none_lost`, `fork_switch_content`,
+      `linearizable`, `concurrent_selection`.
+    * code before 85d2f65 (`fixed = false`): `no_panic` and `never_expired` hold in full too; the four set
+      clauses are REFUTED (`*_refuted`, concrete call sequences, all caused by one defect: `delTx(box)`
+      for a box that is not pooled deleted the index entries of its pooled sub-txs but left their slots)
+      and hold `_partial`ly for every call sequence satisfying `Guarded` (no `DelTxs` of a box one of
+      whose sub-tx hashes is indexed at a live slot other than the box's own).
 
   Concurrency: see `linearizable` at the end — the reduction of concurrent histories to the sequential
   ones above under the checked lock-discipline fact.
@@ -34,16 +37,16 @@ def handedOut (fixed : Bool) (ops : List Op) (time : Nat) (size : Int) : Out :=
 theorem inv_run (ops : List Op) : Inv (runState true newPool ops) := runState_fixed_inv inv_new ops
 theorem winv_run (fixed : Bool) (ops : List Op) : WInv (runState fixed newPool ops) := runState_winv fixed winv_new ops
 
-/-- under the guard the code as it is and the repaired code are indistinguishable -/
+/-- under the guard the code before commit 85d2f65 and the repaired (current) code are indistinguishable -/
 theorem guarded_eq {ops : List Op} (g : Guarded newPool ops) (time : Nat) (size : Int) :
     handedOut false ops time size = handedOut true ops time size := by
   unfold handedOut
   rw [(run_eq_of_guarded inv_new g).1]
   rw [step_eq_of_guard (inv_run ops) (op := .get time size) trivial]
 
-/-! ### the code as it is: what holds for all call sequences -/
+/-! ### what holds for all call sequences both before and after the repair (`fixed` arbitrary) -/
 
-/-- **no_panic** (code as it is): the only call that can panic is `GetTxs` with a negative `size`
+/-- **no_panic** (current code and the code before 85d2f65): the only call that can panic is `GetTxs` with a negative `size`
     (`make([]*Transaction, 0, size)` precedes the `size <= 0` test); in particular `pool.txs[index] = nil`
     never indexes out of range. -/
 theorem no_panic (fixed : Bool) (ops : List Op) (op : Op) :
@@ -88,13 +91,13 @@ theorem no_panic (fixed : Bool) (ops : List Op) (op : Op) :
       cases h
       unfold getTxs; simp [hneg]
 
-/-- **never_expired** (code as it is, full): no selection contains a transaction that is expired at the
+/-- **never_expired** (current code and the code before 85d2f65, full): no selection contains a transaction that is expired at the
     selection's time (own expiration or, for a box, any sub-tx's). -/
 theorem never_expired (fixed : Bool) (ops : List Op) (time : Nat) (size : Int) (l : List Tx)
     (h : handedOut fixed ops time size = .txs l) : ∀ t ∈ l, isTxTimeOut t time = false :=
   (get_sub_live fixed (winv_run fixed ops) h).2
 
-/-! ### the repaired code: the set behaviour, for all call sequences -/
+/-! ### the current code (`delTx` repaired by commit 85d2f65): the set behaviour, for all call sequences -/
 
 /-- **box_exclusive**: any two transactions of one selection have disjoint hash sets (own hash + sub-tx
     hashes): never a box together with one of its sub-txs, never two boxes sharing a sub-tx. -/
@@ -186,7 +189,10 @@ theorem fork_switch_content (ops : List Op) (old new : List (Option Tx)) :
     simp only [hne, Bool.false_eq_true, if_false]
     exact addLoop_accepts 0 old ht hfree hd
 
-/-! ### the code as it is: refutations (one defect, four symptoms) -/
+/-! ### the code BEFORE /repo commit 85d2f65 (`fixed = false`): refutations (one defect, four symptoms)
+
+  These four theorems are about the model of `delTx` as it was before the fix; they document why the fix
+  was needed and are the witnesses the harness replays (episodes `witness`, `witness-lost`). -/
 
 section witnesses
 /-- a plain tx, another plain tx, a box over `a` (never pooled in W1–W3), a short-lived box over `a` -/
@@ -195,10 +201,11 @@ def c : Tx := ⟨2, 1000, []⟩
 def boxA : Tx := ⟨3, 1000, [⟨1, 1000⟩]⟩
 def boxA' : Tx := ⟨4, 5, [⟨1, 1000⟩]⟩
 
-/-- `DelTxs([boxA])` while `a` is pooled standalone and `boxA` is not pooled: index entry of `a` removed,
-    slot kept; `a` is accepted a second time and handed out twice. -/
+/-- (code before 85d2f65) `DelTxs([boxA])` while `a` is pooled standalone and `boxA` is not pooled: index
+    entry of `a` removed, slot kept; `a` is accepted a second time and handed out twice. -/
 def W1 : List Op := [.add (some a), .add (some c), .del [some boxA], .add (some a)]
 
+/-- REFUTED for the code before /repo commit 85d2f65 (`fixed = false`): `W1` then `GetTxs(0,10)` = [a, c, a]. -/
 theorem no_duplicates_handed_out_refuted :
     ¬ ∀ (ops : List Op) (time : Nat) (size : Int) (l : List Tx),
         handedOut false ops time size = .txs l → (l.map Tx.hash).Nodup := by
@@ -206,7 +213,7 @@ theorem no_duplicates_handed_out_refuted :
   have := h W1 0 10 [a, c, a] (by decide)
   revert this; decide
 
-/-- … and after `DelTxs([a])` the first copy is still handed out although `a` itself was deleted and not
+/-- REFUTED for the code before /repo commit 85d2f65 (`fixed = false`): after `W1` and `DelTxs([a])` the first copy is still handed out although `a` itself was deleted and not
     added again. -/
 theorem never_deleted_refuted :
     ¬ ∀ (pre mid : List Op) (ds : List (Option Tx)) (d : Tx) (time : Nat) (size : Int) (l : List Tx),
@@ -216,7 +223,7 @@ theorem never_deleted_refuted :
   have := h W1 [] [some a] a 0 10 [a, c] (by simp) (by simp) (by decide) a (by simp)
   exact this rfl
 
-/-- the orphaned slot of `a` does not stop the box over `a` from being accepted: both are handed out -/
+/-- REFUTED for the code before /repo commit 85d2f65 (`fixed = false`): the orphaned slot of `a` does not stop the box over `a` from being accepted: both are handed out -/
 theorem box_exclusive_refuted :
     ¬ ∀ (ops : List Op) (time : Nat) (size : Int) (l : List Tx),
         handedOut false ops time size = .txs l → l.Pairwise KeysDisjoint := by
@@ -225,7 +232,8 @@ theorem box_exclusive_refuted :
   simp only [List.pairwise_cons] at this
   exact this.1 boxA (by simp) 1 (by simp [a, Tx.keys]) (by simp [boxA, Tx.keys])
 
-/-- an accepted, never deleted, never expired `a` disappears: the short-lived pooled box `boxA'` loses its
+/-- REFUTED for the code before /repo commit 85d2f65 (`fixed = false`): an accepted, never deleted, never
+    expired `a` disappears: the short-lived pooled box `boxA'` loses its
     index entry for `a` by `DelTxs([boxA])`, `a` is accepted standalone, the expiry of `boxA'` then removes
     `a`'s index entry, and the next `DelTxs` that empties the index makes `gc` drop `a`'s slot. -/
 theorem none_lost_refuted :
@@ -253,7 +261,7 @@ theorem none_lost_refuted :
   simp at this
 end witnesses
 
-/-! ### the code as it is, under the guard -/
+/-! ### the code before commit 85d2f65 (`fixed = false`), under the guard -/
 
 theorem box_exclusive_partial (ops : List Op) (g : Guarded newPool ops) (time : Nat) (size : Int) (l : List Tx)
     (h : handedOut false ops time size = .txs l) : l.Pairwise KeysDisjoint := by
@@ -346,7 +354,7 @@ theorem linearizable (fixed : Bool) {p p' : Pool} {progs : List (List Op)} {tr :
     obtain ⟨h1, h2⟩ := ih
     exact ⟨by rw [h1]; rfl, by simp only [List.map_cons, runOut, h2]⟩
 
-/-- every selection made at any point of any concurrent execution (repaired code) is duplicate-free,
+/-- every selection made at any point of any concurrent execution (current code) is duplicate-free,
     box/sub-tx exclusive and free of expired transactions -/
 theorem concurrent_selection {p p' : Pool} (v : Inv p) {progs : List (List Op)} {tr : List (Nat × Op × Out)}
     (e : Exec true p progs tr p') :
